@@ -598,10 +598,16 @@ class Assembler:
             nfp = FnParts(nitem)
             self.fn_contract(s, nfp, ed, nf, fnname + '::' + nf['name'], False, indent='        ')
         for pr in spec.get('proof', []):
-            text = pr['text'].strip()
+            text = pr.get('text', '').strip()
             block = ' proof { %s } ' % re.sub(r'\s*\n\s*', ' ', text)
             if pr.get('raw'):
                 block = ' ' + re.sub(r'\s*\n\s*', ' ', text) + ' '
+            if pr.get('assert'):
+                # 4b: a NAMED assertion obligation at a program point ("NAME: expr"), on a line of its own so that a failure
+                # is reported under its name
+                aname, aexpr = split_clause(pr['assert'])
+                self.obligations.append({'name': aname, 'kind': 'assert', 'function': fnname, 'text': aexpr})
+                block = '\n            proof { %s assert(%s); } // @ob %s\n            ' % (re.sub(r'\s*\n\s*', ' ', text) if text else '', aexpr, aname)
             if pr.get('at') == 'start':
                 ed.insert(s.t[fp.k_body_open][2], block)
             elif pr.get('at') == 'end':
